@@ -593,3 +593,14 @@ TEMPLATES: Dict[str, Callable[..., Spec]] = {f.__name__: f for f in [
     rec_nested_pattern, rec_with_switch_inner, oneof_candidate_also_input, oneof_reached_twice, oneof_reached_via_nested, retry_attempts_zero, rec_simple, rec_inner_start, rec_outside_reader,
     rec_two_scopes, rec_outside_reader_slow, rec_side_input, rec_with_switch, rec_with_oneof, rec_in_oneof, rec_nested, retry_sibling, retry_chain,
 ]}
+
+
+def retry_outside_reader() -> Spec:
+    """A retrying node that reads the start node of a recurrent subgraph without being part of it: the subgraph may
+    re-execute that start node between two attempts, and every attempt must still get the arguments of the first."""
+    return Spec("retry_outside_reader", [
+        Node("S", takes_ad=True),
+        Node("D", (("s", In("S")),), recurrent=True, want_max=1, use_default=True),
+        Node("R", (("s", In("S")),), kinds=(OK, E1), kind_slots=2, attempts=2, delay=2, exceptions=("E1",), use_default=True),
+        Node("O", (("d", Rec("S", "D", 1)), ("r", In("R")))),
+    ], "S", "O", dur_nodes=("S", "D"))
